@@ -84,13 +84,32 @@ def run(ctx):
         after = any(size in fa[2] and len([k_ for k_ in fa[2] if k_]) == 2 and '' not in fa[2] for fa in lins)
         if before and any(fa[0] == '<=' and fa[1] == csk and fa[2].endswith('.prev_civil_sec') for fa in fs):
             n += 1
-            ok = any(fa[0] == '<=' and fa[1].endswith('.civil_min') and fa[2] == csk for fa in fs)
+            owners = [fa[1][:-len('.civil_min')] for fa in fs if fa[0] == '<=' and fa[1].endswith('.civil_min') and fa[2] == csk]
+            ok = bool(owners)
+            # the bound belongs to the type whose offset the conversion uses
+            same_type = ok and any(('%s.utc_offset' % o) in F.resolve_key(rk) for o in owners)
+            ctx.check(same_type or not ok, 'C10-saturate', 'before-first conversion uses the offset of the type whose civil_min bounds it', rn.ast,
+                      'the civil time is tested against the civil_min of %s but converted with another type\'s offset (%s): the bound is '
+                      'displaced by the difference of the two offsets, so civil times within it overflow or saturate early'
+                      % (owners[0] if owners else '?', rk[:120]), construct='saturate:before:type')
             ctx.check(ok, 'C10-saturate', 'before-first conversion happens only for cs >= civil_min', rn.ast,
                       'the instant of a civil time before the first transition is computed without cs >= civil_min having been '
                       'established: the subtraction overflows for civil times near civil_second::min()', construct='saturate:before')
         elif after:
             n += 1
-            ok = any(fa[0] == '<=' and fa[1] == csk and fa[2].endswith('.civil_max') for fa in fs)
+            owners = [fa[2][:-len('.civil_max')] for fa in fs if fa[0] == '<=' and fa[1] == csk and fa[2].endswith('.civil_max')]
+            ok = bool(owners)
+            # ... and belongs to the type of the transition the conversion is anchored to (the one known to lie before cs)
+            anchors = [fa[1][:-len('.prev_civil_sec')] for fa in fs if fa[0] in ('<', '<=') and fa[2] == csk and fa[1].endswith('.prev_civil_sec')]
+            anchors += [fa[1][:-len('.civil_sec')] for fa in fs if fa[0] in ('<', '<=') and fa[2] == csk and fa[1].endswith('.civil_sec')]
+            m_own = [re.match(r'^(.*?)\[(.+)\.type_index\]$', o) for o in owners]
+            same_type = any(m and m.group(2) in anchors for m in m_own)
+            ctx.check3((same_type or not ok) if (anchors or not ok) else None, 'C10-saturate',
+                       'after-last conversion is bounded by the civil_max of the last transition\'s own type', rn.ast,
+                       'the civil time is tested against the civil_max of %s, which is not the type of the transition the conversion is '
+                       'anchored to (%s): where the two types\' offsets differ, civil times between the two bounds overflow the instant '
+                       'instead of saturating (or saturate although they have an instant)' % (owners[0] if owners else '?', anchors[:1]),
+                       construct='saturate:after:type')
             ctx.check(ok, 'C10-saturate', 'after-last conversion happens only for cs <= civil_max', rn.ast,
                       'the instant of a civil time after the last transition is computed without cs <= civil_max having been '
                       'established: the addition overflows for civil times near civil_second::max()', construct='saturate:after')
@@ -134,7 +153,7 @@ def run(ctx):
                   'addition overflows at the end of the range instead of saturating', construct='saturate:timelocal:add')
     ctx.check(len(mults) >= 1 and len(adds) >= 1, 'C10-saturate', 'TimeLocal shift arithmetic found', f,
               'found %d/%d' % (len(mults), len(adds)), construct='saturate:timelocal:count')
-    ctx.minimum('C10-saturate', 7)
+    ctx.minimum('C10-saturate', 9)
 
     # ---- C10-bounds: the per-type saturation bounds are the civil images of the two ends of the instant range
     _check_bounds(ctx)
@@ -333,6 +352,18 @@ def fname_(f):
     return (qn(f) or '').split('::')[-1]
 
 
+def mentions_year(x, uu=None, depth=0):
+    """Does the expression read a civil year (a .year() call, directly or through a local initialised from one)?"""
+    for y in walk(x):
+        if y.get('kind') == 'CXXMemberCallExpr' and callee(y) and callee(y)[1] == 'year':
+            return True
+        if y.get('kind') == 'DeclRefExpr' and uu is not None and depth < 3:
+            d_ = uu.by_id.get((y.get('referencedDecl') or {}).get('id'))
+            if d_ is not None and d_.get('kind') == 'VarDecl' and kids(d_) and mentions_year(kids(d_)[-1], uu, depth + 1):
+                return True
+    return False
+
+
 def _check_libc(ctx):
     """TimeZoneLibC::MakeTime for every 64-bit civil year: arithmetic on the year stays in its type, and the narrowing to
     std::tm's int year preserves the value (interval abstract interpretation; cs.year() is one value across the calls)."""
@@ -364,15 +395,6 @@ def _check_libc(ctx):
         raise AnalysisBroken('C10-libc: TimeZoneLibC::MakeTime could not be analysed')
     ctx.stats['absint_libc'] = dict(ai.stats)
 
-    def mentions_year(x, uu=None, depth=0):
-        for y in walk(x):
-            if y.get('kind') == 'CXXMemberCallExpr' and callee(y) and callee(y)[1] == 'year':
-                return True
-            if y.get('kind') == 'DeclRefExpr' and uu is not None and depth < 3:
-                d_ = uu.by_id.get((y.get('referencedDecl') or {}).get('id'))
-                if d_ is not None and d_.get('kind') == 'VarDecl' and kids(d_) and mentions_year(kids(d_)[-1], uu, depth + 1):
-                    return True
-        return False
     n = 0
     for (uu, ff) in ctx.scope(f):
         for x in walk(ff):
